@@ -649,6 +649,16 @@ def tie_com_rescale(c, rebound, exe):
         c.count(("com", n, case % 8), nontrivial=n >= 2, n=3)
     # ---------------------------------------------------------------- rescale_var called directly
     whchk = {"cases": 0, "flag_expected_1": 0, "flag_wrong": 0, "p_jh_checked": 0, "p_jh_modified": 0, "first": None}
+    # which shape of the WHFast branch does this source tree have (model follows the source; unknown shape = no rule)
+    import extract_c16
+    try:
+        wh_variant = extract_c16.whfast_rescale_branch(REPO)
+    except Exception as ex:
+        wh_variant = None
+        c.corr_break("reb_simulation_rescale_var: the WHFast branch has neither of the two shapes the tie has a rule for "
+                     "(flag set iff rescaled [and safe_mode==0]; nothing else touched): %s" % str(ex)[:300])
+    whchk["variant"] = wh_variant
+    whchk["flag_expected_1_safe_mode_1"] = 0
     for case in range(ncases * 2):
         rng = c.rng.fork()
         n = rng.choice([1, 2, 3, 4])
@@ -696,7 +706,7 @@ def tie_com_rescale(c, rebound, exe):
         wh_safe = None
         pj_before = None
         if integ == "whfast":
-            wh_safe = rng.randint(0, 1) if not force_wh else 0
+            wh_safe = rng.randint(0, 1) if not force_wh else (case // 6) % 2 if wh_variant == "any-mode" else 0
             sim.ri_whfast.safe_mode = wh_safe
             if all(o == 1 and tp_ < 0 for _, o, tp_ in cfgs) and (rng.chance(0.7) or force_wh):
                 # allocate and fill the cached Jacobi coordinates (only possible when WHFast accepts all sets)
@@ -723,9 +733,11 @@ def tie_com_rescale(c, rebound, exe):
             # WHFast branch of rescale_var: with safe_mode 0 the cached Jacobi coordinates are stale after a rescale -> the
             # routine must request their recalculation and must not touch them itself
             flag = sim.ri_whfast.recalculate_coordinates_this_timestep
-            want_flag = 1 if (wh_safe == 0 and changed > 0) else 0
+            # pinned shape: only with safe_mode 0; repaired shape (a9d135c): in any mode (safe_mode may be switched off before the next step)
+            want_flag = 1 if (changed > 0 and (wh_safe == 0 or wh_variant == "any-mode")) else 0
             whchk["cases"] += 1
             whchk["flag_expected_1"] += want_flag
+            whchk["flag_expected_1_safe_mode_1"] += 1 if (want_flag and wh_safe == 1) else 0
             if flag != want_flag:
                 whchk["flag_wrong"] += 1
                 whchk["first"] = whchk["first"] or dict(case=case, safe_mode=wh_safe, rescaled_sets=changed, flag=flag, expected=want_flag)
@@ -768,6 +780,8 @@ def tie_com_rescale(c, rebound, exe):
                      "coordinates modified in %d cases" % (whchk["flag_wrong"], whchk["p_jh_modified"]), whchk["first"])
     if whchk["flag_expected_1"] == 0 or whchk["p_jh_checked"] == 0:
         c.corr_break("rescale tie never reached the WHFast safe_mode=0 branch with a rescale (%s)" % whchk)
+    if wh_variant == "any-mode" and whchk["flag_expected_1_safe_mode_1"] == 0:
+        c.corr_break("rescale tie never reached the WHFast branch in safe mode with a rescale (%s)" % whchk)
     c.cov["rescale_branches"] = branch
     c.cov["untouched_checks"] = untouched
     if untouched["testparticle_sets_moved"]:
